@@ -67,6 +67,8 @@ def verify(alg: str, native_pub, msg: bytes, sig: bytes) -> bool:
             return hmac.compare_digest(hmac.new(native_pub, msg, _H[p[1]][0]).digest(), sig)
         if isinstance(native_pub, (bytes, bytearray)):
             return False
+        if fam in ("rsa", "pss") and len(sig) != (native_pub.key_size + 7) // 8:
+            return False                # RFC 8017 sections 8.1.2 / 8.2.2 step 1: exactly the octet length of the modulus
         if fam == "rsa":
             native_pub.verify(sig, msg, padding.PKCS1v15(), _H[p[1]][1]())
             return True
